@@ -8,7 +8,7 @@ ID = "C03"
 HARNESS_PKG = "h_ingest"
 HARNESS_ARGS = ["c03"]
 COQ_IMPORTS = "From PV Require Import Model.Ingest Lib.IngestObs Oracle.C03."
-COQ_SHARD = 60
+COQ_SHARD = 150
 TECHNIQUE = ("Coq proof (store invariant by induction over the delivery list: unique seq per log, every non-prune entry linked to "
              "its stored predecessor, provenance; height monotonicity; exact characterisation of what ingest inserts) + differential "
              "correspondence of the Gallina model with the real ingest_operation + LogPrune on an in-memory SqliteStore after every delivery")
